@@ -381,6 +381,10 @@ def run(rep, drv):
 					a, b = rng.choice([0.001, 0.05]), rng.choice([0.01, 0.2])          # rare, long disruptions: the closed-form approximation is far from the exact optimum
 					h = rng.choice([0.01, 0.225])
 					rep.count('eoq-disruptions:rare-long')
+				if k < 3:
+					# corpus: stockouts cheap relative to holding and long disruptions -- the exact optimum lies an order of magnitude ABOVE the approximate one
+					K, h, p, lam, a, b = [(8, 10, 0.1, 1, 0.1, 0.01), (8, 5, 0.1, 1, 0.2, 0.01), (20, 10, 0.2, 2, 0.1, 0.02)][k]
+					case.update({'p': p}); rep.count('eoq-disruptions:optimum-far-above-the-approximation')
 				case.update({'K': K, 'lambda': lam, 'disruption_rate': a, 'recovery_rate': b, 'h': h})
 				for approx in (False, True):
 					Q, c = call(su.eoq_with_disruptions, K, h, p, lam, a, b, approximate=approx)
